@@ -85,6 +85,8 @@ def sv_terms(sv):
     """z3 terms inside an SV (for constant collection)."""
     if sv is None:
         return []
+    if sv.k in ("nx_attr", "nx_adj", "nx_keydict", "nx_edgeview"):
+        return list(sv.x)
     if sv.k in ("tuple",):
         return [t for i in sv.x for t in sv_terms(i)]
     if sv.k == "range":
@@ -182,8 +184,8 @@ def sv_str(t):
     return SV("str", t)
 
 
-def sv_tuple(items):
-    return SV("tuple", x=list(items))
+def sv_tuple(items, cls=None):
+    return SV("tuple", x=list(items), cls=cls)
 
 
 def sv_set(t, wb=None):
@@ -280,7 +282,9 @@ def subst_sv(sv, sub):
     if sv.k in ("none", "py", "cls", "func"):
         return sv
     if sv.k == "tuple":
-        return SV("tuple", x=[subst_sv(i, sub) for i in sv.x])
+        return SV("tuple", x=[subst_sv(i, sub) for i in sv.x], cls=sv.cls)
+    if sv.k in ("nx_attr", "nx_adj", "nx_keydict", "nx_edgeview"):
+        return SV(sv.k, x=tuple(z3.substitute(t, *sub) for t in sv.x), cls=sv.cls)
     if sv.k == "range":
         return SV("range", x=tuple(subst_sv(i, sub) for i in sv.x))
     if sv.k == "gen":
